@@ -150,6 +150,7 @@ class ClassifierAfterKMeans(BaseEstimator, ClassifierMixin):
                 raise ValueError(f"Unexpected parameter name '{k}'")
         self.clus.set_params(**pc)
         self.estimator.set_params(**pe)
+        return self
 
     def __repr__(self):
         """
